@@ -79,7 +79,7 @@ Definition build_leaf (c : csrc) : tok :=
   | CRe SK_EscapeSequence _ s1 => EscapeSequence [RawText (gtext s1 1)]
   | CRe SK_AutoLink _ s1 =>
     let content := gtext s1 1 in
-    AutoLink content (mem 64 content && negb (contains $"mailto" (casefold content))) [RawText content]
+    AutoLink content (mem 64 content && negb (mem 58 content)) [RawText content]
   | CRe SK_InlineCode _ s1 =>
     let content := replace_char 10 [32] (gtext s1 2) in
     let padded := negb (isspace_str content) && startswith [32] content && endswith [32] content in
